@@ -182,23 +182,6 @@ func RunPasses(dir string) (results []PassResult, ident, full []core_domain.Code
 	return
 }
 
-// cliPanicSite extracts the first coca frame of a Go panic trace printed by the CLI.
-func cliPanicSite(stderr string) string {
-	for _, l := range strings.Split(stderr, "\n") {
-		l = strings.TrimSpace(l)
-		if strings.HasPrefix(l, "github.com/modernizing/coca/") {
-			if j := strings.LastIndex(l, "("); j > 0 {
-				l = l[:j]
-			}
-			return strings.TrimPrefix(l, "github.com/modernizing/coca/")
-		}
-	}
-	if strings.Contains(stderr, "stack overflow") || strings.Contains(stderr, "goroutine stack exceeds") {
-		return "stack-overflow"
-	}
-	return "?"
-}
-
 func short(s string, n int) string {
 	s = strings.TrimSpace(s)
 	if len(s) > n {
